@@ -12,12 +12,14 @@ import (
 // before its final CRLF never yields a successful handshake.
 func C16_handshake_cut() {
 	vRandConcrete(true)
-	useErr := vChoose("kind", 2) == 1
+	kind := vChoose("kind", 4)
+	useErr := kind%2 == 1
+	withData := kind >= 2
 	one := vChoose("chunk", 2) == 1
 	if vChoose("side", 2) == 0 {
 		full := []byte("GET /x HTTP/1.1\r\nHost: h\r\nUpgrade: websocket\r\nConnection: Upgrade\r\nSec-WebSocket-Version: 13\r\nSec-WebSocket-Key: dGhlIHNhbXBsZSBub25jZQ==\r\nSec-WebSocket-Protocol: a\r\n\r\n")
 		cut := vChoose("cut", len(full)) // 0 .. len-1: at least the final LF is missing
-		conn := &vConn{in: full[:cut], one: one, cutErr: useErr}
+		conn := &vConn{in: full[:cut], one: one, cutErr: useErr, endWithData: withData}
 		u := Upgrader{Protocol: func(p []byte) bool { return true }}
 		_, err := u.Upgrade(conn)
 		vAssert(err != nil, "hcut.upgrader_fails")
